@@ -16,6 +16,11 @@ package main
 //            ranges the values are the model's reading of the placeholder expanded on its own, op 1212)
 //   kinds term and live (c12term.go): the same checks at the level of the running finder (buildPlusList; the fzf
 //            process on a pty)
+//   which shell reads the expansion (c12shell.go): every tpl / raw / term / live case carries a value of $SHELL and of
+//            --with-shell; the dialect the checks above are made against (POSIX: A, B; fish: the fish spec) is the one the
+//            Coq spec derives for the shell that RUNS the command (running_shell / runs_fish, op 1215); kind quote checks
+//            NewExecutor + QuoteEntry directly (quote_dialect_follows_running_shell, executor_runs_the_documented_shell)
+//   kind relaunch (c12relaunch.go): fzf --tmux through a stand-in tmux: argv and environment of the re-launched fzf
 // Shell runs are batched (50 snippets per process).
 
 import (
@@ -69,6 +74,82 @@ type c12Case struct {
 	Shell    string    `json:"shell,omitempty"`     // live: --with-shell ("" = $SHELL -c = /bin/sh -c)
 	Search   bool      `json:"search,omitempty"`    // live: the query filters the list (otherwise --disabled when a query is given)
 	FilePhs  []string  `json:"file_phs,omitempty"`  // live: f-placeholders, each read with cat in the same command
+	// which shell reads the expansion (kinds tpl, raw, term, quote, live): $SHELL the executor is built under (absent:
+	// /bin/sh) and --with-shell (kinds tpl, raw, term, quote; absent: "sh -c", or "fish -c" when fish is set; live: Shell)
+	EnvShell  *string  `json:"env_shell,omitempty"`
+	WithShell *string  `json:"with_shell,omitempty"`
+	Words     []string `json:"words,omitempty"` // quote: the strings handed to QuoteEntry
+	// kind relaunch (c12relaunch.go): fzf --tmux through a stand-in tmux; Args = the command line after argv[0]
+	Env   []string  `json:"env,omitempty"`   // environment entries NAME=value of the outer fzf
+	Funcs []c12Func `json:"funcs,omitempty"` // exported bash functions of the outer environment
+}
+
+type c12Func struct {
+	Name string `json:"name"`
+	Body string `json:"body"` // source text between the braces; the exported form is bash's own serialisation of it
+}
+
+// shellPair: the value of $SHELL and of --with-shell a case runs under
+func (cs c12Case) shellPair() (env, with string) {
+	env = "/bin/sh"
+	if cs.EnvShell != nil {
+		env = *cs.EnvShell
+	}
+	switch {
+	case cs.Kind == "live":
+		with = cs.Shell
+	case cs.WithShell != nil:
+		with = *cs.WithShell
+	default:
+		with = c12WithShell(cs.Fish)
+	}
+	return
+}
+
+// the state of the current run (the dialect of a case is a question to the Coq spec)
+var c12Cur *c12State
+
+type c12Dialect struct {
+	running string // the program that runs the command (spec running_shell)
+	fish    bool   // its quoting dialect is fish's (spec runs_fish)
+}
+
+// dialect: Coq spec running_shell / runs_fish (op 1215) for $SHELL = env and --with-shell = with
+func (s *c12State) dialect(env, with string) c12Dialect {
+	k := env + "\x00" + with
+	if d, ok := s.dialects[k]; ok {
+		return d
+	}
+	v := s.c.Model.Call(1215, L(Bytes(env), Bytes(with)))
+	d := c12Dialect{}
+	if v.IsList && len(v.L) == 2 {
+		d = c12Dialect{running: v.L[0].Str(), fish: v.L[1].I != 0}
+	}
+	if s.dialects == nil {
+		s.dialects = map[string]c12Dialect{}
+	}
+	s.dialects[k] = d
+	return d
+}
+
+func c12IsFish(cs c12Case) bool {
+	env, with := cs.shellPair()
+	return c12Cur.dialect(env, with).fish
+}
+
+// underShell runs f with $SHELL = env (NewExecutor reads it from the process environment; the harness calls the hooks
+// sequentially) and restores the previous value
+func c12UnderShell(env string, f func()) {
+	old, had := os.LookupEnv("SHELL")
+	os.Setenv("SHELL", env)
+	defer func() {
+		if had {
+			os.Setenv("SHELL", old)
+		} else {
+			os.Unsetenv("SHELL")
+		}
+	}()
+	f()
 }
 
 // ---- real shells ----
@@ -90,6 +171,10 @@ type c12State struct {
 	shells    []string
 	now       bool // replay: run shell jobs immediately
 	liveFails int  // live sessions that ended in a disagreement (no more sessions after 3)
+	dialects  map[string]c12Dialect
+	rlFails   int       // relaunch runs that ended in a disagreement
+	fishBytes [256]bool // bytes seen in words whose fish-quoted expansion was read back by the fish spec
+	envBytes  [256]bool // bytes seen in environment values that arrived unchanged in the re-launched fzf
 }
 
 const c12Sentinel = "X"
@@ -291,7 +376,7 @@ func c12Params(cs c12Case, action string) Val {
 		cur = append(cur, *cs.Cur)
 	}
 	return L(delim, Bytes(cs.Printsep), B(cs.ForcePlus), Bytes(cs.Query), c12Items(cur), c12Items(cs.Sel),
-		Bytes(action), Bytes(cs.Prompt), B(cs.Fish))
+		Bytes(action), Bytes(cs.Prompt), B(c12IsFish(cs)))
 }
 
 func c12HasMeta(s string) bool {
@@ -384,13 +469,17 @@ func (s *c12State) checkTemplate(cs c12Case) {
 	var out, action string
 	var temps []string
 	pan := ""
+	envShell, withShell := cs.shellPair()
+	fish := s.dialect(envShell, withShell).fish // the dialect of the shell that RUNS the command (Coq spec)
 	func() {
 		defer func() {
 			if r := recover(); r != nil {
 				pan = fmt.Sprint(r)
 			}
 		}()
-		out, temps, action = fzf.VerifReplacePlaceholder(cs.Template, cs.Delim, cs.Printsep, cs.ForcePlus, cs.Query, cur, sel, cs.Prompt, c12WithShell(cs.Fish))
+		c12UnderShell(envShell, func() {
+			out, temps, action = fzf.VerifReplacePlaceholder(cs.Template, cs.Delim, cs.Printsep, cs.ForcePlus, cs.Query, cur, sel, cs.Prompt, withShell)
+		})
 	}()
 	rep.ImplTraces++
 	if pan != "" {
@@ -416,17 +505,17 @@ func (s *c12State) checkTemplate(cs c12Case) {
 	}
 	key, _ := json.Marshal(cs)
 	nontrivial := false
-	if cs.Kind == "tpl" && !cs.Fish {
+	if cs.Kind == "tpl" && !fish {
 		nontrivial = s.specExpansion(cs, cs, out, temps, action, read)
-	} else if !cs.Fish {
+	} else if !fish {
 		s.shellModelCheck(cs, out)
+	} else if cs.Kind == "tpl" {
+		s.fishExpansion(cs, cs, out)
 	}
 	rep.Eval(string(key), nontrivial)
 	rep.Sample(cs)
 	rep.Count("kind=" + cs.Kind)
-	if cs.Fish {
-		rep.Count("fish(model-vs-impl only)")
-	}
+	s.countShells(cs)
 	if cs.Delim == nil {
 		rep.Count("delim=awk")
 	} else {
@@ -720,6 +809,10 @@ func (s *c12State) check(cs c12Case) {
 		s.checkTerm(cs)
 	case "live":
 		s.liveOne(cs, nil)
+	case "quote":
+		s.checkQuote(cs)
+	case "relaunch":
+		s.relaunchOne(cs, nil)
 	case "tmux":
 		s.checkTmux(cs)
 	case "env":
@@ -856,6 +949,9 @@ func c12GenParams(r *RNG, n int, cs *c12Case) {
 	}
 	cs.Prompt = Pick(r, []string{"> ", "prompt", "it's> ", "$ ", "", "a\\b "})
 	cs.Fish = r.Chance(1, 12)
+	if r.Chance(1, 3) { // $SHELL and --with-shell, independently
+		c12GenShells(r, cs)
+	}
 }
 
 func c12GenTpl(r *RNG, n int) c12Case {
@@ -866,6 +962,14 @@ func c12GenTpl(r *RNG, n int) c12Case {
 	prevLit := false
 	if r.Chance(1, 5) { // several placeholders over the same range that differ only in their flags
 		cs.Parts = c12FamilyParts(r)
+		np = 0
+	} else if cs.WithShell != nil && r.Bool() { // quoted placeholders separated by blanks: readable in either dialect
+		for i := r.Range(1, 4); i > 0; i-- {
+			cs.Parts = append(cs.Parts, c12Part{"ph", Pick(r, []string{"{}", "{}", "{+}", "{+}", "{q}", "{s}", "{+s}", "{fzf:query}", "{fzf:prompt}"})})
+			if i > 1 {
+				cs.Parts = append(cs.Parts, c12Part{"lit", Pick(r, []string{" ", " ", "  "})})
+			}
+		}
 		np = 0
 	}
 	for i := 0; i < np; i++ {
@@ -973,7 +1077,9 @@ func c12GenLine(r *RNG, n int) c12Case {
 }
 
 func c12Gen(r *RNG, n int) c12Case {
-	switch k := r.Intn(25); {
+	switch k := r.Intn(27); {
+	case k >= 25:
+		return c12GenQuote(r, n)
 	case k < 11:
 		return c12GenTpl(r, n)
 	case k < 14:
@@ -1009,10 +1115,11 @@ func c12Gen(r *RNG, n int) c12Case {
 }
 
 func runC12(c *Ctx) {
-	c.Rep.Rule = "templates built from shell-neutral literal text, live and escaped placeholders of every form and flag, incl. several placeholders over one range that differ only in their flags (f-placeholders: the file each one names holds its own values); item texts / queries over every ASCII byte 1..127, shell metacharacters, newlines, multi-byte runes, 0..5 selected items; the finder level (kind term: list, cursor position, selection order with 0, 1, 2.. selected items and the cursor on or off the selection, through buildPlusList; kind live: the fzf binary on a pty, random toggle / move / select-all sequences, then one command through execute-silent, execute, execute-multi, transform-header, preview, change-preview, reload or become, argv and temp files read back from the real shell); tmux argument and export re-quoting; non-trivial = a quoted value containing a shell metacharacter whose expansion passed the Coq spec and was handed to dash and bash (or came back from the shell fzf started); distinct by JSON of the case"
+	c.Rep.Rule = "templates built from shell-neutral literal text, live and escaped placeholders of every form and flag, incl. several placeholders over one range that differ only in their flags (f-placeholders: the file each one names holds its own values); item texts / queries over every ASCII byte 1..127, shell metacharacters, newlines, multi-byte runes, 0..5 selected items; the finder level (kind term: list, cursor position, selection order with 0, 1, 2.. selected items and the cursor on or off the selection, through buildPlusList; kind live: the fzf binary on a pty, random toggle / move / select-all sequences, then one command through execute-silent, execute, execute-multi, transform-header, preview, change-preview, reload or become, argv and temp files read back from the real shell); $SHELL and --with-shell chosen independently for every expansion (fish / POSIX / unset login shell x fish / POSIX / no --with-shell; path names whose directory or suffix merely looks like fish), the dialect judged being the one of the shell that runs the command; kind quote: QuoteEntry under such a pair on hostile strings; tmux argument and export re-quoting; kind relaunch: the fzf binary run as fzf --tmux through a stand-in tmux that runs the re-launch script with an empty environment, command lines with hostile option values (incl. empty ones) and environments with hostile values (further = signs, quotes, $, backticks, backslashes, newlines, empty; LS_COLORS-like; FZF_DEFAULT_*; names a shell cannot hold; exported bash functions), argv and environment read where the re-launched fzf stands; non-trivial = a quoted value containing a shell metacharacter whose expansion passed the Coq spec and was handed to dash and bash (or came back from the shell fzf started); distinct by JSON of the case"
 	os.Setenv("TMPDIR", c.Work)
 	c12ShellDir = c.Work
-	st := &c12State{c: c, shells: []string{"/bin/sh", "bash"}, corrSeen: map[string]int{}}
+	st := &c12State{c: c, shells: []string{"/bin/sh", "bash"}, corrSeen: map[string]int{}, dialects: map[string]c12Dialect{}}
+	c12Cur = st
 	if _, err := exec.LookPath("bash"); err != nil {
 		st.shells = []string{"/bin/sh"}
 		c.Rep.Count("bash-missing")
@@ -1069,6 +1176,33 @@ func runC12(c *Ctx) {
 		c.Rep.Count("live:no_fzf_binary")
 	}
 	c.Rep.Extra["live_sessions_wall_s"] = time.Since(t0).Seconds()
+	t0 = time.Now()
+	// the re-launch inside tmux: fzf --tmux through a stand-in tmux
+	nr := 320 * scale
+	if c.Thorough() {
+		nr = 4000 * scale
+	}
+	rl := make([]c12Case, nr)
+	for i := range rl {
+		rl[i] = c12GenRelaunch(c.Rng, i)
+	}
+	if c.Fzf != "" {
+		st.runRelaunchBatch(rl)
+	} else {
+		c.Rep.Count("relaunch:no_fzf_binary")
+	}
+	c.Rep.Extra["relaunch_runs_wall_s"] = time.Since(t0).Seconds()
+	nb := func(a *[256]bool) int {
+		k := 0
+		for b := 1; b < 256; b++ {
+			if a[b] {
+				k++
+			}
+		}
+		return k
+	}
+	c.Rep.Extra["bytes_seen_in_fish_round_tripped_words"] = nb(&st.fishBytes)
+	c.Rep.Extra["bytes_seen_in_environment_values_that_arrived_unchanged"] = nb(&st.envBytes)
 	c.Rep.Extra["shells"] = st.shells
 	ascii, high := 0, 0
 	for b := 1; b < 256; b++ {
